@@ -47,8 +47,17 @@ pub struct ErrorObject<'a> {
 	/// Message
 	message: StdCow<'a, str>,
 	/// Optional data
-	#[serde(skip_serializing_if = "Option::is_none")]
+	#[serde(default, deserialize_with = "deserialize_data", skip_serializing_if = "Option::is_none")]
 	data: Option<StdCow<'a, RawValue>>,
+}
+
+/// A `data` member that is present is kept as it is, `null` included, so that it's not mixed up with an absent one.
+fn deserialize_data<'de, 'a, D>(deserializer: D) -> Result<Option<StdCow<'a, RawValue>>, D::Error>
+where
+	D: Deserializer<'de>,
+{
+	let data: Box<RawValue> = Deserialize::deserialize(deserializer)?;
+	Ok(Some(StdCow::Owned(data)))
 }
 
 impl<'a> ErrorObject<'a> {
